@@ -594,12 +594,13 @@ def run_case(sh: Shard, R: Runner, case: dict) -> None:
             hdst = os.path.join(hbase, "D2", h["dst_name"])
             hsrc_key, hsrc = (case["src_loc"], src) if h["mode"] == "again" else (case["dst_loc"], final)
             env.clear_logs()
-            explained2 = lambda: hostile_mechanism(env, case, hsrc, hdst)[0] is not None  # noqa: E731
+            explained2 = lambda: hostile_mechanism(env, case, hsrc, hdst, (final, src))[0] is not None  # noqa: E731
             outcome2, info2 = R.loop.run_until_complete(
                 one_transfer(env, hsrc_key, hsrc, h["dst_loc"], hdst, h["writable"], timeout, early, explained2))
             c2 = dict(case, writable=h["writable"], dst_state="parent-missing", src_loc=hsrc_key, dst_loc=h["dst_loc"],
                       src_name=os.path.basename(hsrc), dst_name=h["dst_name"])
-            judge(sh, env, c2, f"{hsrc_key}>{h['dst_loc']}", hsrc, hdst, hdst, want, outcome2, info2, hop=2, orig=case)
+            judge(sh, env, c2, f"{hsrc_key}>{h['dst_loc']}", hsrc, hdst, hdst, want, outcome2, info2, hop=2, orig=case,
+                  also_paths=(final, src))
             sh.count(f"hop2_{h['mode']}")
             if outcome2 == "hang":
                 env.kill_shells()
@@ -620,7 +621,7 @@ def run_case(sh: Shard, R: Runner, case: dict) -> None:
                 shutil.rmtree(p, ignore_errors=True) if os.path.isdir(p) and not os.path.islink(p) else os.unlink(p)
 
 
-def hostile_mechanism(env, case, src, dst):
+def hostile_mechanism(env, case, src, dst, also=()):
     """First logged command line (chronological) that embeds a hostile path RAW — present verbatim but not
     in its shlex-quoted form — in an unquoted / double-quoted template where one of its metacharacter
     classes is active.  Returns (label, line) or (None, None)."""
@@ -629,7 +630,7 @@ def hostile_mechanism(env, case, src, dst):
     from vf.harness.c22_env import ACTIVE, template_of
 
     cands = set()
-    for p in (src, dst):
+    for p in (src, dst, *also):
         for q in {p, p.replace(env.outer, env.inner, 1), p.replace(env.inner, env.outer, 1)}:
             cands.update({q, os.path.dirname(q), os.path.basename(q), os.path.join(q, os.path.basename(src))})
     cands = {c for c in cands if T.char_classes(c)}
@@ -655,14 +656,17 @@ def into_dir_spread(case, dst, want) -> bool:
     return spread == norm(want)
 
 
-def judge(sh, env, case, route, src, dst, final, want, outcome, info, hop, orig=None, extra=None):
+def judge(sh, env, case, route, src, dst, final, want, outcome, info, hop, orig=None, extra=None, also_paths=()):
+    """`also_paths`: further paths the data manager may hand to a shell for this transfer — at the second hop
+    the first hop's destination, which `transfer_data` uses as the source of a same-location copy when it
+    finds that copy on the destination location."""
     got = norm(T.digest(final))
     sh.count("oracle_tree_compared")
     reg = registered(env, case["dst_loc"], final)
     sh.count("oracle_registration_checked")
     src_same = norm(T.digest(src)) == norm(want)
     alias = aliases(src, final) if (case["writable"] and got is not None) else None
-    paths_hostile = sorted({c for p in (src, dst) for x in p.split("/") for c in T.char_classes(x)})
+    paths_hostile = sorted({c for p in (src, dst, *also_paths) for x in p.split("/") for c in T.char_classes(x)})
     key = {k: v for k, v in (orig or case).items()}
     sh.case(("xfer", hop, key), nontrivial=not (case["kind"] == "dir" and not case["tree"]))
     problems = []
@@ -718,7 +722,7 @@ def judge(sh, env, case, route, src, dst, final, want, outcome, info, hop, orig=
         mech = MECH_INTO
     # (3) hostile path components reaching a shell raw
     elif paths_hostile:
-        mech, line = hostile_mechanism(env, case, src, dst)
+        mech, line = hostile_mechanism(env, case, src, dst, also_paths)
         wit["shell_line"] = line
     if outcome == "hang" and mech is None:
         # wall-clock watchdog without a mechanistic explanation (raw unbalanced quote in a shell line):
